@@ -159,7 +159,13 @@ def check_class(acc, item):
             acc.trace()
             acc.nontrivial(h64((qname, kind, path)))
             pth = '.'.join(map(str, path))
-            fresh = _canon(reflect.new(cls))
+            fresh_obj = reflect.new(cls)
+            if fresh_obj is None:
+                acc.violation(f'fresh-instance-changed/{qname}/{kind}/{pth}',
+                              {'class': qname, 'written_on': kind, 'path': pth, 'diff': 'a fresh instance cannot be constructed any more'},
+                              case={'cls': qname, 'kind': kind, 'path': list(path)})
+                return
+            fresh = _canon(fresh_obj)
             if fresh != baseline:
                 acc.violation(f'fresh-instance-changed/{qname}/{kind}/{pth}',
                               {'class': qname, 'written_on': kind, 'path': pth,
